@@ -131,6 +131,21 @@ Theorem C19_error_message_table : forall kind, kind <> 12 -> kind <> 13 ->
 Proof. exact message_table. Qed.
 Print Assumptions C19_error_message_table.
 
+(* bad radix / precision / length: for every argument value (undefined, NaN,
+   infinities, every finite double m * 2^e) otto's range checks throw exactly
+   when ES5 15.7.4.2/5/6/7, 15.4.2.2, 15.4.5.1 require it (and never where ES5
+   requires that nothing is thrown) *)
+Theorem C19_throws_as_es5 : forall fn a b, spec_throws fn a = Some b -> model_throws fn a = b.
+Proof. exact throws_as_es5. Qed.
+Print Assumptions C19_throws_as_es5.
+
+(* a range check made on the 32-bit wrapped argument is not that decision: the
+   correspondence run therefore uses residues of the legal range modulo 2^32 *)
+Theorem C19_wrapped_radix_check_refuted : exists r,
+  spec_throws 1 (AFin r 0) = Some true /\ ((wrap32 r <? 2) || (36 <? wrap32 r)) = false.
+Proof. exact wrapped_radix_check_refuted. Qed.
+Print Assumptions C19_wrapped_radix_check_refuted.
+
 (* Error() of an uncaught error object is 15.11.4.4 of it as long as the script
    has not changed its name/message; any other thrown value gives its ToString *)
 Theorem C19_uncaught_text : forall n m s,
@@ -231,6 +246,11 @@ Qed.
 Example C19_syntax_hyp_met :
   single_byte [120; 32; 61; 13; 10; 32; 59] /\ parser_position_off [120; 32; 61; 13; 10; 32; 59] 6 = Some (2, 2).
 Proof. split; [|reflexivity]. intros b Hb. cbn in Hb. intuition (subst; reflexivity). Qed.
+
+Example C19_throws_hyp_met :
+  spec_throws 1 (AFin 4294967312 0) = Some true /\ spec_throws 1 (AFin 16 0) = Some false /\
+  spec_throws 6 (AFin 3 (-1)) = Some true /\ spec_throws 3 (AFin 21 0) = None.
+Proof. vm_compute. repeat split; reflexivity. Qed.
 
 Example C19_trace_hyp_met :
   (forall fr, In fr [mkFrame false 0 2 7] -> 0 <= f_offset fr) /\
